@@ -134,6 +134,8 @@ func main() {
 		modeC02R()
 	case "c05":
 		modeC05()
+	case "c05s":
+		modeC05S()
 	case "c04":
 		modeC04()
 	case "c06":
@@ -185,6 +187,18 @@ func replayMode() {
 		res.Eval()
 		fmt.Fprintf(os.Stderr, "replay c17 %s: outcome=%s err=%v wire=%v\n", cc, x.Outcome, c17cur.sendErr, c17cur.wire)
 		checkC17(cc, x)
+		return
+	}
+	if rp.Mode == "c05s" {
+		var c FlushersCase
+		json.Unmarshal([]byte(rp.Extra), &c)
+		x, err := vrt.Replay(c05sCfg(), rp.Choices, func() { runFlushers(c) })
+		if err != nil {
+			res.InfraError("%v", err)
+			return
+		}
+		res.Eval()
+		checkFlushers(c, x)
 		return
 	}
 	if rp.Mode == "c02r" {
